@@ -284,4 +284,40 @@ Caterpillar(n) ==
              IF i <= n THEN RTLeaf(par(i), i)
              ELSE LET k == i - n
                   IN RTInt(IF k = 1 THEN 1 ELSE sp(k - 1), k + 1, IF k = m THEN n ELSE sp(k + 1))]
+\* ------------------------------------------------------------------ the query API and direct calls (audit #16)
+\* judged by definition on a valid tree, not against the transcription
+RTSeqSet(s) == {s[i] : i \in 1..Len(s)}
+RTNoDup(s) == \A i, j \in 1..Len(s) : i # j => s[i] # s[j]
+\* path(a, b): THE path of the tree from a to b (consecutive nodes adjacent, no node twice)
+IsTreePath(nodes, p, a, b) ==
+  /\ Len(p) >= 1 /\ p[1] = a /\ p[Len(p)] = b /\ RTNoDup(p)
+  /\ \A k \in 1..Len(p) : p[k] \in RTIdx(nodes)
+  /\ \A k \in 1..(Len(p) - 1) : p[k + 1] \in RTNhdSet(nodes[p[k]])
+\* partition(e) = (leaf vertices on e[1]'s side, leaf vertices on e[2]'s side), each vertex once
+PartitionOK(nodes, e, p1, p2) ==
+  /\ RTNoDup(p1) /\ RTNoDup(p2)
+  /\ RTSeqSet(p1) = Partition(nodes, e) /\ RTSeqSet(p2) = Partition(nodes, <<e[2], e[1]>>)
+\* edges(): every tree edge once as (i, j), i <= j;  num_edges(): their number
+EdgesOK(nodes, es, ne) ==
+  /\ RTNoDup(es) /\ {<<es[i][1], es[i][2]>> : i \in 1..Len(es)} = Edges(nodes) /\ ne = Cardinality(Edges(nodes))
+\* arguments of swap_subtrees((p1, c1), (p2, c2)) that denote two DISJOINT subtrees hanging at c1 below p1 and at c2
+\* below p2: the tree path from c1 to c2 leaves c1 through p1 and reaches c2 through p2 (p1 = p2: siblings)
+SwapArgsValid(nodes, p1, c1, p2, c2) ==
+  LET pt == Path(nodes, c1, c2) IN Len(pt) >= 3 /\ pt[2] = p1 /\ pt[Len(pt) - 1] = p2
+\* argument of move_subtree: a tree path with at least four nodes
+MoveArgsValid(nodes, pt) == Len(pt) >= 4 /\ IsTreePath(nodes, pt, pt[1], pt[Len(pt)])
+\* the direct calls as the harness makes them (the protocol of the library's own random moves), L1 only
+SwapDirect(nodes, ranks, p1, c1, p2, c2) ==
+  RTRes(SwapSubtrees(RTSt(nodes), p1, c1, p2, c2), RTDrop(ranks, RTPathEdges(Path(nodes, c1, c2))))
+MoveDirect(nodes, ranks, pt, selective) ==
+  LET ao == RTOther(nodes[pt[2]], {pt[1], pt[3]})
+  IN RTRes(MoveSubtreeCore(RTSt(nodes), pt),
+           IF selective THEN RTDrop(ranks, RTPathEdges(pt) \cup {RTNorm(ao, pt[2])}) ELSE <<>>)
+\* sort_nhds keeps the tree: same edges, same leaves with the same vertices, every neighbour list ascending
+SortKeepsTree(pre, post) ==
+  /\ Len(post) = Len(pre) /\ Edges(post) = Edges(pre)
+  /\ \A i \in RTIdx(pre) : post[i].kind = pre[i].kind /\ post[i].v = pre[i].v /\ RTNhdSet(post[i]) = RTNhdSet(pre[i])
+                             /\ \A k \in 1..(Len(post[i].nhd) - 1) : post[i].nhd[k] <= post[i].nhd[k + 1]
+\* the caterpillar with leaf i holding vertex perm[i]
+CaterpillarPerm(perm) == LET c == Caterpillar(Len(perm)) IN [i \in 1..Len(c) |-> IF c[i].kind = "leaf" THEN [c[i] EXCEPT !.v = perm[i]] ELSE c[i]]
 =============================================================================
